@@ -486,6 +486,25 @@ func crCases(c *core.Ctx) ([]json.RawMessage, error) {
 				}
 				crAdd(&out, seen, crCase{Entry: "project", Text: []byte(aoText(cs.Root, kv)), Types: types, Src: "AllOf"})
 				nk++
+				// the same project with a defect of value in the properties of one type (the example breaks a rule
+				// written next to it), the type's text moved down by a comment: wherever the property is inherited
+				// to, the diagnostic belongs to the text the property is written in
+				if len(cs.Refusals) == 0 && nk%3 == 0 {
+					for tn, tt := range types {
+						bad := aoSpoil(tt)
+						if bad == tt {
+							continue
+						}
+						t2 := map[string]string{}
+						for k, v := range types {
+							t2[k] = v
+						}
+						t2[tn] = "# the text of this type starts further down than that of its heirs\n\n\n" + bad
+						crAdd(&out, seen, crCase{Entry: "project", Text: []byte(aoText(cs.Root, kv)), Types: t2, Src: "AllOf/defective-property"})
+						nk++
+						break
+					}
+				}
 			}
 			return nil
 		}
@@ -527,6 +546,46 @@ func crCases(c *core.Ctx) ([]json.RawMessage, error) {
 		}
 		c.Set("model_projects", nk)
 	}
+	// ---- L. the reference projects of RefPositions.tla (one mention, every position and place) with one of the
+	// registered definitions replaced by a text without a value (blank, a comment, nothing): the schema refers to a
+	// type that cannot be looked into
+	{
+		cfg := "RefPositions_crash.cfg"
+		body := "SPECIFICATION Spec\nCONSTANTS\n  MaxMentions = 1\n  Rotate = FALSE\nINVARIANTS Emit\nCHECK_DEADLOCK FALSE\n"
+		var lines []string
+		res, err := tlc.Run(tlc.Opts{Module: "RefPositions", Cfg: cfg, Workers: 8, Files: map[string][]byte{cfg: []byte(body)}, OnLine: func(l string) { lines = append(lines, l) }})
+		res.Cleanup()
+		if err != nil {
+			return nil, err
+		}
+		if err := res.MustOK(); err != nil {
+			return nil, err
+		}
+		c.AddTLC(cfg, res)
+		sort.Strings(lines)
+		empties := []string{" ", "# nothing but a comment", "", "\n\n", "// {min: 1}"}
+		nl := 0
+		stride := c.Pick(7, 1)
+		for i, l := range lines {
+			if (i+int(c.Seed))%stride != 0 {
+				continue
+			}
+			var cs rpCase
+			if json.Unmarshal([]byte(l), &cs) != nil || len(cs.Missing) > 0 || cs.Unused {
+				continue
+			}
+			for k, victim := range cs.Registered {
+				types := map[string]string{}
+				for _, r := range cs.Registered {
+					types["@"+r] = rpTypeText(r, cs.Variant[r])
+				}
+				types["@"+victim] = empties[(i+k)%len(empties)]
+				crAdd(&out, seen, crCase{Entry: "project", Text: []byte(rpRootText(cs.Root, cs.Place)), Types: types, Src: "RefPositions/value-less-type"})
+				nl++
+			}
+		}
+		c.Set("value_less_type_projects", nl)
+	}
 	// ---- J. deep indentation: the printed projects (cut and mutated: most of them are rejected somewhere) with
 	// every line indented by 60, 120 or 190 blanks, so that lines are longer than the 200 bytes a diagnostic quotes
 	// while their visible part is short
@@ -558,4 +617,24 @@ func crCases(c *core.Ctx) ([]json.RawMessage, error) {
 		c.Set("indented_cases", ni)
 	}
 	return out, nil
+}
+
+// aoSpoil gives the first plain property of an AllOf.tla type text a rule that its example breaks.
+func aoSpoil(t string) string {
+	lines := strings.Split(t, "\n")
+	for i, l := range lines {
+		if !strings.HasPrefix(l, "  \"k") || strings.Contains(l, "//") || strings.Contains(l, "{") {
+			continue
+		}
+		rule := " // {type: \"null\"}"
+		switch {
+		case strings.Contains(l, ": 1"):
+			rule = " // {min: 5}"
+		case strings.Contains(l, ": \"two\""):
+			rule = " // {minLength: 9}"
+		}
+		lines[i] = l + rule
+		return strings.Join(lines, "\n")
+	}
+	return t
 }
